@@ -74,3 +74,15 @@ Theorem C05_all_expansions_are_the_same_code : forall s bp cl1 co1 cl2 co2 out1 
   cfg_of_pops [map pop_of_oitem out1] = cfg_of_pops [map pop_of_oitem out2].
 Proof. exact expansions_are_the_same_code. Qed.
 Print Assumptions C05_all_expansions_are_the_same_code.
+
+(* `return` leaves only the macro, in the graph of the routine that holds the expansion: the label the jumps replacing
+   Return go to is found at the last item of this expansion, whatever stands before (not defining that label) and after *)
+From ES Require Import Comp.ReturnSem.
+
+Theorem C05_return_goes_behind_the_expansion : forall s bp cl co out cl' co' pre post,
+  build s bp cl co = (out, cl', co') ->
+  (forall x, In x pre -> x <> PLabel (S (S cl))) ->
+  find_label (S (S cl)) (pre ++ map pop_of_oitem out ++ post) 0 = Some (length pre + length out - 1) /\
+  nth_error (map pop_of_oitem out) (length out - 1) = Some (PLabel (S (S cl))).
+Proof. exact return_goes_behind_the_expansion. Qed.
+Print Assumptions C05_return_goes_behind_the_expansion.
